@@ -554,6 +554,15 @@ func (v *PolicyVerifier) VerifyRelativeForRef(ctx context.Context, firstEntry, l
 						slog.Debug("Setting current policy...")
 					}
 
+					// The new policy takes effect for the entries that follow
+					// it, so its rule files must be validly signed and
+					// reachable as well, exactly as LoadState requires of a
+					// policy state it returns.
+					slog.Debug("Validating new policy's state...")
+					if err := newPolicy.Verify(ctx); err != nil {
+						return fmt.Errorf("policy state has invalidly signed metadata: %w", err)
+					}
+
 					currentPolicy = newPolicy
 
 					if v.persistentCacheEnabled {
